@@ -130,6 +130,10 @@ def main(argv=None):
     known = F.load(pid)
     new_fail, known_hits = F.split(total.failures, known)
 
+    # replay artefacts of earlier runs of this property are stale now
+    import glob as _glob
+    for old in _glob.glob(os.path.join(OUT, "replays", f"{pid}-*.json")):
+        os.remove(old)
     # determinism re-check of new failures in fresh processes (DESIGN 2.2)
     exit_code = 0
     viol_lines = []
